@@ -340,6 +340,7 @@ fn case<T: Exo>(name: &str, val: T, rep: &mut ExoticReport, only: Option<&str>) 
     }
     rep.cases += 1;
     rep.case_names.push(name.to_string());
+    let rot_is_option = name.starts_with("rot=Some") || name.starts_with("rot=None");
     let mut cx = Ctx { case: name, rep };
 
     // ---------------- event-level medium ----------------
@@ -397,9 +398,15 @@ fn case<T: Exo>(name: &str, val: T, rep: &mut ExoticReport, only: Option<&str>) 
                 other => cx.fail(format!("{}: order {:?}", mname, p), "A3", format!("{:?}", other)),
             }
         }
-        // A4: every omission — also when the absent field's type could be built from nothing
-        // (Option, unit): the statement says "rejected, rather than silently defaulted"
+        // A4: every omission — also when the absent field's type could be built from nothing (unit,
+        // PhantomData): the statement says "rejected, rather than silently defaulted". The one
+        // exception is an `Option` rotation: serde's own convention (serde_derive) reads an absent
+        // `Option` field as None, an Option is not a rotation, and a derive-based Decomposed — a
+        // legitimate rewrite — would do exactly that.
         for mask in 1u8..8 {
+            if rot_is_option && mask & 0b010 != 0 {
+                continue;
+            }
             cx.eval();
             let idx: Vec<u8> = (0..3u8).filter(|i| mask & (1 << i) != 0).collect();
             let rf = [RFault::Drop { path: vec![], idx: idx.clone() }];
@@ -492,6 +499,9 @@ fn case<T: Exo>(name: &str, val: T, rep: &mut ExoticReport, only: Option<&str>) 
         }
     }
     for mask in 1u8..8 {
+        if rot_is_option && mask & 0b010 != 0 {
+            continue;
+        }
         let t = format!(
             "{{{}}}",
             (0..3).filter(|i| mask & (1 << i) == 0).map(|i| format!("\"{}\":{}", fields[i].0, fields[i].1)).collect::<Vec<_>>().join(",")
